@@ -26,7 +26,7 @@ def mc_factor(run, quick, thorough):
 
 
 def check_C01(run):
-    mc_factor(run, ["q", "c"], ["p", "t"])
+    mc_factor(run, ["q", "c"], ["p"])          # (the largest configuration, "t", runs in C02's thorough tier: about 40 minutes)
     g = Gen(run.seed * 1000 + 1)
     types = QUICK_TYPES if run.tier == "quick" else FULL_TYPES
     scen = merge(F.fam_gssv(g, "C01", sizes(run, 600, 5000), types), F.fam_gssv_big(g, "C01", sizes(run, 160, 1500), types))
@@ -62,7 +62,7 @@ def check_C03(run):
 
 
 def check_C04(run):
-    mc_factor(run, ["q", "tall"], ["p", "t"])
+    mc_factor(run, ["q", "tall"], ["p"])
     g = Gen(run.seed * 1000 + 4)
     types = QUICK_TYPES if run.tier == "quick" else FULL_TYPES
     scen = merge(F.fam_singular(g, "C04", sizes(run, 600, 5000), types), F.fam_singular(g, "C04", sizes(run, 160, 1600), {"d": 1.0, "z": 1.0, "s": 1.0, "c": 1.0}, fn="gssvx"),
